@@ -111,6 +111,9 @@ def enc_expr(ops):
 def expr_tokens(ops):
     t = [str(len(ops))]
     for o in ops:
+        if o[0] in ("skip", "bra"):
+            t.append("branch")           # the model has no branches: an operation the (bounded) evaluator rejects
+            continue
         t.append(o[0])
         t += [str(x) for x in o[1:]]
     return t
